@@ -7,8 +7,10 @@ LEVEL = "proof"
 MANIFEST = {
     "technique": "Coq proof over hand-written Gallina models with explicit panic / cost semantics (FixedSliceReader, box headers, "
                  "both container child loops, the file-assembly state machine over box shapes incl. the mfro -> mfra -> tfra look-back, the count-guard-then-allocate prologues "
-                 "of 29 table-box decoders, 14 of them composed as leaves of the box-tree decoders) + differential correspondence (extracted OCaml vs Go: outcome class, grouping, decoded entry "
-                 "count, allocation bucket) + structured mutation fuzzing and count/length-field inflation in an isolated worker process",
+                 "of 29 table-box decoders, 17 of them composed as leaves of the box-tree decoders (14 size-guarded; sidx subs pssh with end-position models), the cross-box references of the second senc pass "
+                 "(moov track lookup, saio position, seig group lookup sbgp -> sgpd), the Info loops of 17 table boxes with getInfoLevel) + differential correspondence (extracted OCaml vs Go: outcome class, grouping, decoded entry "
+                 "count, allocation bucket, senc state after the second pass, Info line counts at 16 level strings) + structured mutation fuzzing, count/length-field inflation and a cross-reference stream "
+                 "(every index / reference field set to values around the referenced table's length in global and fragment-local numbering) in an isolated worker process",
     "level_text": "PROVED for all inputs (coq/c04/C04Theorems.v): every bits.FixedSliceReader method keeps 0 <= pos <= len and never "
                   "panics under the stated caller guards (with machine-checked refutations for negative lengths, SkipBytes overflow, "
                   "ReadPossiblyZeroTerminatedString and LookAhead); DecodeHeader/DecodeHeaderSR and DecodeBox/DecodeBoxSR with both "
@@ -28,20 +30,37 @@ MANIFEST = {
                   "most size/entry+c times (C04_alloc_<box>; box level on both paths (the senc second phase has its own theorem): <= 172*len+1048560 bytes (sgpd's factor; <= 12*len for the others), <= 6*len+65536 iterations for "
                   "every byte string below 32 GiB), with machine-checked refutations for the pinned sgpd/alst text (4 GiB from 28 bytes, "
                   "repaired) and for ctts at exactly 32 GiB (uint32 wrap of entryCount+1, not reproducible). "
-                  "EXPLORED only: the other ~100 leaf decoder bodies, all encoder/Info bodies (no Info loop is modelled), sidx/subs/pssh and the other unguarded table boxes as leaves of a tree (their prologues are proved per box only), the value-dependent tails of ssix/leva, "
+                  "C04_senc_group_lookup_total / C04_senc_pass_x_total (C04XrefModel.v: the moof case of DecodeFile / DecodeFileSR over EXTENDED trafs: tfhd.track_ID looked up in the moov's traks as IsEncrypted / GetSinf do, "
+                  "saio.Offset[0] + moof start against the position of the LAST senc / PIFF senc, the seig lookup of TrafBox.ParseReadSenc - one sbgp entry, index 65536+1, non-empty sgpd, entry is a seig entry -, then ParseReadBox): for every moov context, "
+                  "moof position, saio offsets, sbgp / sgpd contents with any indices, any number of senc children the pass returns or is an error, never an out-of-range access (hypothesis: the two sbgp slices have equal length, "
+                  "which DecodeSbgpSR establishes: C04_sbgp_decoded_wf; without it an API-built box panics); the GENERALISED lookup (any fragment-local index) with `idx > len` as range check is refuted "
+                  "(C04_senc_group_lookup_off_by_one_refuted: one-entry sgpd referenced as 65538) and panics EXACTLY when the index is one past the last entry (C04_senc_group_lookup_off_by_one_exact); with `>=` it is total and extends the pinned text; "
+                  "C04_info_total / C04_info_decoded_total (C04InfoModel.v: getInfoLevel over token lists and the Info bodies of stsc trun senc tfra sidx saiz ctts stts sbgp saio stsz stss stco co64 elst sdtp subs as the Go loops with partial index "
+                  "expressions over states that keep parallel slices as separate lengths): for EVERY state whose lengths are related as the decoders relate them (C04_info_decoded_wf: the state DecodeBox / DecodeBoxSR leave, through the prologue models) "
+                  "and EVERY level (any int from any specificBoxLevels token list) Info returns and writes at most Size()+1030 lines; without the relations the loops index out of range at level >= 1 (C04_info_wf_needed; stts exactly when "
+                  "SampleTimeDelta is the shorter slice); C04_tree_alloc_unguarded: sidx, subs and pssh as leaves of the tree theorem with END-POSITION and Size() models (no size guard: on the SliceReader path they read beyond the box and report a Size() "
+                  "computed from the content): an accepted box costs <= 6 per byte consumed, a rejected one <= 6 per byte seen + 1114095 (a 32-byte sidx announcing 65535 references appends 1 MiB before it returns the error; paid once, the error ends the "
+                  "decode), so for EVERY byte string below 32 GiB the decode over trees with all 17 table leaves returns with bytes requested and iterations each <= 2600*len+1200040 (SliceReader) / 2601*len+1200071 (io.Reader): two-constant leaf contract, both child loops re-proved. "
+                  "EXPLORED only: the other ~100 leaf decoder bodies, all encoder bodies, the Info bodies of the other box types (sgpd pssh ssix leva and the non-table boxes) and the Info traversal of containers, "
+                  "Info of a senc parsed by the second pass (C04_info_senc_parsed_partial: the relations between len(IVs), len(SubSamples) and the data are checked at run time on the state computed from senc_parse, not derived from parseAndFillSamples), "
+                  "sgpd and the other unguarded table boxes as leaves of a tree (their prologues are proved per box only), the value-dependent tails of ssix/leva, "
                   "real wall-clock time and real heap (the model's ticks are "
                   "not seconds): structured mutation fuzzing of all testdata files and boxes, and count/length-field inflation (0, 1, exact, "
                   "exact+1, 1024, 1025, 2^16, 2^22, 2^31-1, 2^31, 2^32-4, 2^32-1 clipped to the field width, the guard-boundary values (payload-d)/e and +1, all fields of a box jointly) of every count or length field of "
                   "34 box types under every version/flags combination that changes the per-entry size (incl. size 0), compact and "
                   "large-size header, trailing bytes, both decode paths, box level and nested in a file (also lazy-mdat / ISM / start-on-moof options where the parent is moof, traf or mfra), plus a catch-all (every registered "
-                  "box type, 32-bit word at each of the first offsets inflated), with per-input time and allocation budgets.",
+                  "box type, 32-bit word at each of the first offsets inflated), a cross-reference stream (synthesized encrypted fragments with / without an init segment: group_description_index in 0 1 N-1 N N+1 N+2 65535 65536 65537 65536+N 65536+N+1 65536+N+2 2^31 2^32-1 "
+                  "for sgpd tables of 0..3 entries, sbgp entry counts, grouping types, duplicate sbgp / sgpd, saio offsets vs plain / PIFF / several senc boxes, track ids vs trak sets and entry kinds; and every index / reference / cross-checked count field of every "
+                  "testdata file and init+fragment pair - sbgp stsc tfhd trex tkhd saio saiz senc trun stts ctts stss stco co64 dref tref sidx prft hdlr tfra mfro subs stsh ... - set to those values relative to the referenced table's length, decoded as FILES under all options), "
+                  "Info at levels 0..2 through `all` and through the box's own type for every one of the 134 registered box types (measured), with per-input time and allocation budgets.",
     "level_note": "Trusted: Coq kernel, extraction, OCaml/Go glue, the shape renderer. The models are hand transcriptions tied to /repo "
                   "by the correspondence on generated inputs only; the prologue models count the bytes REQUESTED with make/append (Go's append "
                   "growth factor and allocator rounding are trusted: measured bytes must lie between model/2 (tables >= 128 KiB) and "
                   "8*model + 64*len + 1 MiB). As leaves of a tree the 14 guarded table decoders leave the reader hdr.Size-8 bytes after the header and report Size() = hdr.Size (what their size guard implies; sdtp: the payload): "
                   "modelled, tied by the G correspondence stream. The extended shapes say where an mfro / mfra starts; the renderer's promise (the name mfra appears exactly there) is asserted on every rendered file. "
-                  "io.Reader is a bytes.Reader (no I/O errors). Shapes carry clear "
-                  "(unencrypted) tracks and no sbgp/sgpd.",
+                  "io.Reader is a bytes.Reader (no I/O errors). The shapes of the assembly theorems (C04AsmModel) carry clear "
+                  "(unencrypted) tracks and no sbgp/sgpd; encrypted tracks, sbgp/sgpd and track ids live in the extended trafs of C04XrefModel (one moof decoded after an optional init segment; not composed with the segment grouping). "
+                  "specificBoxLevels is modelled after tokenisation (strings.Split / strings.Index / strconv.Atoi trusted). The X stream's traf contents are the generator's intent, rendered by the harness (not re-derived from the bytes).",
 }
 
 ULIMIT_KB = 6 * 1024 * 1024
@@ -69,6 +88,8 @@ def run(ctx):
         "DecodeHeaderSR/DecodeBoxSR, mp4/container.go both child loops) and coq/c04/C04AsmModel.v (mp4/file.go, boxsr.go file loops, "
         "traf.go ParseReadSenc, moof.go/fragment.go/mediasegment.go/initsegment.go Encode, Info traversal) are hand transcriptions",
         "model: coq/c04/C04MfraModel.v (mp4/file.go findAndReadMfra, mfro.go TryDecodeMfro over extended shapes) and coq/c04/C04TreeModel.v (table decoders as leaves) are hand transcriptions",
+        "model: coq/c04/C04XrefModel.v (mp4/traf.go ParseReadSenc / ContainsSencBox, the moof case of file.go / boxsr.go, moov.go IsEncrypted / GetSinf), coq/c04/C04InfoModel.v (mp4/infodumper.go getInfoLevel, the Info methods of 17 table boxes) and "
+        "coq/c04/C04TreeXModel.v (sidx / subs / pssh with final reader position and Size()) are hand transcriptions",
         "model: coq/c04/C04AllocModel.v (prologues of mp4/trun.go stts.go ctts.go stsc.go stsz.go stco.go co64.go stss.go sdtp.go saiz.go "
         "saio.go senc.go sbgp.go subs.go elst.go tfra.go sidx.go pssh.go ssix.go tref.go leva.go uuid.go ftyp.go styp.go sgpd.go samplegroupentries.go hvcc.go avcc.go lou.go, hevc/hevcdecoderconfigurationrecord.go avc/avcdecoderconfigurationrecord.go) hand transcription; "
         "element sizes are Go 64-bit struct layouts",
@@ -80,7 +101,7 @@ def run(ctx):
         "64 MiB request from a 24-byte box is an overalloc), "
         "address space of harness and workers limited to %d KiB" % ULIMIT_KB,
         "leaf decoder bodies are opaque in the container proofs (contract: no panic, reader invariant kept, cost <= bytes consumed + 1); "
-        "14 exact-size-guard table prologues are composed with the container loops (C04TreeModel.v); the unguarded ones (sidx subs pssh sgpd ...) are modelled per box only",
+        "14 exact-size-guard table prologues and the unguarded sidx subs pssh are composed with the container loops (C04TreeModel.v, C04TreeXModel.v); the other unguarded ones (sgpd ...) are modelled per box only",
     ]
     exe, model = build(ctx)
     pr = ctx.proofs("c04", "C04Theorems.v")
@@ -106,6 +127,12 @@ def run(ctx):
                           "differing / zero / non-moof offsets, up to 4 boxes, tfra version 0/1 and all length-size fields) x 18 mfro variants (correct, absent, ParentSize -1 -4 -8 +1 0 1 16 huge L L+1, previous box, "
                           "stand-alone mfro, mfra inside an mdat) x 6 contexts x {RN1 RL1 RN3 RL3 RN0 SN1} + random ones; G: random box trees whose leaves include the 14 guarded table boxes (0..5 entries, inflated / "
                           "deflated counts, trailing byte, 16-byte header) with the B mutations, both paths: tree dump with every Size(), end position",
+        "cross_references": "X: synthesized encrypted fragments (moof{mfhd, traf{tfhd, tfdt, sgpd*, sbgp*, saio, trun, senc|uuid-senc*}} + mdat, optionally after ftyp + moov with chosen traks): group_description_index x sgpd of 0..3 entries "
+                            "(14 values each), sbgp entry lists / versions, grouping types seig/roll/absent (27 combinations), duplicates, seig entries with IV size 8 / 16 / 0 / constant IV and per-entry lengths vs senc data built for IV 0 / 8 / 16 "
+                            "with / without sub-samples, 9 saio modes x versions x plain / PIFF / several senc boxes x moved moof, 12 senc sets, damaged senc data, 20 trak sets x 9 tfhd track ids, two trafs, random combinations; 3 configurations each; "
+                            "observables: decode class, per traf readButNotParsed / len(IVs) / len(SubSamples) of the senc the pass picks, Info line counts of that senc at 4 level strings; "
+                            "I: the 17 modelled table boxes (all count-inflation variants, 300-entry tables, stsc id patterns, all 64 trun flag sets x 0..2 samples, 1024 / 1025 empty samples) + random corruption, both paths: decode class and the number of "
+                            "lines at 16 specificBoxLevels strings (empty, all:N, type:N, both orders, invalid numbers, empty type, negative level); G now also has sidx / subs / pssh leaves whose counts say more or less than the bytes present",
         "input_distribution": "R: every reader op x small/hostile argument x every position of 6 buffers + random histories (half with hostile "
                               "ints); B: random box trees over {moov,moof,traf,mfra,udta,dinf | free,skip,mdat,unknown} (large-size headers 1/8) "
                               "with truncation / size-field / large-size corruption, both decode paths; A: all shape lists up to the given length "
